@@ -269,6 +269,9 @@ def short_str(value: bytes) -> typing.Tuple[int, str]:
         raise ValueError('Could not unpack short string value')
 
 
+_EPOCH = datetime.datetime(1970, 1, 1, tzinfo=datetime.timezone.utc)
+
+
 def timestamp(value: bytes) -> typing.Tuple[int, datetime.datetime]:
     """Decode a timestamp value, returning bytes consumed and the value.
 
@@ -285,10 +288,13 @@ def timestamp(value: bytes) -> typing.Tuple[int, datetime.datetime]:
         if ts_value > 0xFFFFFFFF:
             ts_value /= 1000.0
 
-        return 8, datetime.datetime.fromtimestamp(ts_value,
-                                                  tz=datetime.timezone.utc)
+        # Not datetime.fromtimestamp(): it asks the C library, which counts
+        # leap seconds when the process time zone is a "right/" zone
+        return 8, _EPOCH + datetime.timedelta(seconds=ts_value)
     except TypeError:
         raise ValueError('Could not unpack timestamp value')
+    except OverflowError as error:  # Beyond the year 9999
+        raise ValueError(str(error))
 
 
 def embedded_value(value: bytes) -> typing.Tuple[int, common.FieldValue]:
